@@ -168,6 +168,7 @@ pub fn run_scripts(prop: &str, checks: u32, name: &str, scripts: &[Script]) -> F
                 let mut node = root_node(&root);
                 turn_start_oracles(&mut ctx, &node, None);
                 let last_turn = sc.turns.len() - 1;
+                let mut trail: Vec<Node> = vec![node.clone()];
                 'game: for (ti, turn) in sc.turns.iter().enumerate() {
                     for (si, want) in turn.iter().enumerate() {
                         ctx.stats.states += 1;
@@ -176,6 +177,7 @@ pub fn run_scripts(prop: &str, checks: u32, name: &str, scripts: &[Script]) -> F
                             Some(s) => {
                                 node = s.node;
                                 ctx.path.push(*want);
+                                trail.push(node.clone());
                             }
                             None => {
                                 if ti == last_turn && si + 1 == turn.len() {
@@ -192,6 +194,26 @@ pub fn run_scripts(prop: &str, checks: u32, name: &str, scripts: &[Script]) -> F
                     }
                 }
                 ctx.stats.max("e10_longest_history", node.hist.len() as u64);
+                // Query order: above, every state was asked for its actions before the next one was produced.  Now the same
+                // game is produced first (take_action only, from a fresh root object, nothing asked) and the states are
+                // asked afterwards, LAST TO FIRST, each with all oracles of `visit`: lazily computed per-state data that
+                // is shared with, or inherited from, a neighbouring state answers wrongly in this order only.
+                if trail.len() > 1 && !report::stopped() {
+                    let played: Vec<Action> = ctx.path.clone();
+                    let mut cold: Vec<GameState> = vec![root_node(&root).gs];
+                    for a in played.iter() {
+                        let next = cold.last().unwrap().take_action(a);
+                        cold.push(next);
+                    }
+                    for i in (0..trail.len().min(cold.len())).rev() {
+                        let mut n = trail[i].clone();
+                        n.gs = cold[i].clone();
+                        ctx.path = played[..i].to_vec();
+                        ctx.stats.add("e10_states_asked_after_the_whole_game_was_produced_last_to_first", 1);
+                        let _ = visit(&mut ctx, &n);
+                    }
+                    ctx.path = played;
+                }
             }));
             if r.is_err() {
                 let q = ctx.query;
